@@ -32,6 +32,7 @@ FUNCTIONS = ["pymemcache.client.rendezvous:RendezvousHash.__init__", "pymemcache
 N = SHARD.get("n", 3)
 NAMES = ["b", "a", "d", "c", "f", "e"]      # deliberately not in sorted order
 NEV = SHARD.get("nev", 3)
+CTOR = SHARD.get("ctor", False)
 _ALLP = list(itertools.permutations(NAMES[:N]))
 PERMS = _ALLP[SHARD["pmin"]:SHARD["pmax"]] if SHARD.get("pmin") is not None else _ALLP
 
@@ -91,11 +92,13 @@ def h_history(s0: int, s1: int, s2: int, s3: int, e1: int, e2: int, e3: int, e4:
             return skip("first-event-is-a-shard-parameter")
     names = NAMES[:4]
     sc = dict(zip(names, (s0, s1, s2, s3)))
-    h = RendezvousHash(hash_function=_mk_hash(sc))
-    cur = []
-    for nd in names[:2]:
-        h.add_node(nd)
-        cur.append(nd)
+    cur = list(names[:2])
+    if CTOR:
+        h = RendezvousHash(nodes=list(cur), hash_function=_mk_hash(sc))   # initial rotation given to the constructor
+    else:
+        h = RendezvousHash(hash_function=_mk_hash(sc))
+        for nd in cur:
+            h.add_node(nd)
     prev_owner = h.get_node("key")
     if prev_owner != _argmax(cur, sc):
         return viol("initial owner", prev_owner)
@@ -104,10 +107,9 @@ def h_history(s0: int, s1: int, s2: int, s3: int, e1: int, e2: int, e3: int, e4:
         e = concretize(e, 0, 7)
         nd = names[e % 4]
         if e < 4:
-            if nd in cur:
-                return skip("pruned-history")
-            h.add_node(nd)
-            cur.append(nd)
+            h.add_node(nd)           # adding a server that is already in rotation leaves the set as it is
+            if nd not in cur:
+                cur.append(nd)
         else:
             if nd not in cur or len(cur) == 1:
                 return skip("pruned-history")
@@ -153,9 +155,13 @@ def h_names(c0: int, c1: int, c2: int, n: int, port: int) -> int:
             return viol("bare host", host, "does not default to port 11211")
         v6 = "[::%s]:%d" % (host.replace(".", "").replace("-", "") or "1", port)
         a = hc._make_client_key(normalize_server_spec(v6))
-        b = hc._make_client_key(("::" + (host.replace(".", "").replace("-", "") or "1"), port))
+        v6host = "::" + (host.replace(".", "").replace("-", "") or "1")
+        b = hc._make_client_key((v6host, port))
         if a != b:
             return viol("bracketed IPv6 spelling", v6, "gives", a, "but the tuple gives", b)
+        if a != "%s:%s" % (v6host, port):
+            # the node name that every pymemcache process hashes is '<host>:<port>', for IPv6 literals too
+            return viol("IPv6 server", (v6host, port), "gives node name", repr(a), "expected", "%s:%s" % (v6host, port))
         path = "/" + host
         if hc._make_client_key(normalize_server_spec("unix:" + path)) != hc._make_client_key(normalize_server_spec(path)):
             return viol("unix:%s and %s give different node names" % (path, path))
@@ -207,6 +213,9 @@ def h_murmur(ns: int, k: int, seed: int, drop: int) -> int:
         # removing a node moves only the keys it owned; adding it back restores placement
         if drop < len(nodes) and len(nodes) > 1:
             gone = nodes[drop]
+            h.add_node(gone)         # a reconcile loop re-announcing a server already in rotation changes nothing
+            if h.get_node(key) != got:
+                return viol("re-announcing", gone, "moved key", repr(key), "from", got, "to", h.get_node(key))
             h.remove_node(gone)
             after = h.get_node(key)
             if got != gone and after != got:
@@ -317,6 +326,10 @@ def shards(tier):
         out.append(dict(fn="h_history", timeout=T, shard=dict(nev=3, e1=e1)))
         if thorough:
             out.append(dict(fn="h_history", timeout=2400, shard=dict(nev=4, e1=e1)))
+    for e1 in (0, 1, 2, 3, 4, 5):   # the same with the initial rotation handed to the constructor; 0/1 re-announce a member
+        out.append(dict(fn="h_history", timeout=T, shard=dict(nev=3, e1=e1, ctor=True)))
+        if thorough:
+            out.append(dict(fn="h_history", timeout=2400, shard=dict(nev=4, e1=e1, ctor=True)))
     out.append(dict(fn="h_names", timeout=T, shard={}))
     out.append(dict(fn="h_murmur", timeout=T, shard={}))
     out.append(dict(runner="harness.C11", fn="witness", no_twin=True, timeout=60, klen=4,
@@ -326,8 +339,9 @@ def shards(tier):
 
 BOUNDS = {
     "quick": "1..4 nodes with symbolic 32-bit scores (ties included) x every insertion order (5 nodes: 12 orders); histories of "
-             "3 add/remove events over 4 nodes with lookups at symbolic positions; node-name spellings for hosts of 1..3 "
-             "characters over {a,b,1,.,-} x 4 ports; real murmur3 placement == published rule on 6 node sets x 10 keys x 3 "
+             "3 add/remove events over 4 nodes (re-adding a member included; initial rotation built by add_node or handed to the "
+             "constructor) with lookups at symbolic positions; node-name spellings for hosts of 1..3 "
+             "characters over {a,b,1,.,-} x 4 ports (host:port strings, tuples, bare hosts, IPv6 literals, UNIX paths); real murmur3 placement == published rule on 6 node sets x 10 keys x 3 "
              "seeds x every single-node removal, also through HashClient routing; z3 witnesses: a 4-character key for "
              "every node of 3 node sets",
     "thorough": "5 nodes x all 120 orders, histories of 4 events",
